@@ -24,16 +24,40 @@ OPT = {"swift_prefix": "--swift-prefix", "kotlin_prefix": "--kotlin-prefix", "ja
 TOML_KEY = {"swift_prefix": ("swift", "prefix"), "kotlin_prefix": ("kotlin", "prefix"), "java_package": ("kotlin", "package"),
             "scala_package": ("scala", "package"), "go_package": ("go", "package")}
 EXPOSES = {"swift": ["swift_prefix"], "kotlin": ["kotlin_prefix", "java_package"], "scala": ["scala_package"], "go": ["go_package"]}
-SRC = ("#[typeshare]\npub struct Foo { pub user_id: u32, pub m: Mapped, pub list: Option<Vec<u32>> }\n"
+SRC = ("#[typeshare]\npub struct Foo { pub user_id: u32, pub m: Mapped, pub list: Option<Vec<u32>>, pub home_url: String, pub m2: Mapped2, pub unit: () }\n"
        "#[typeshare]\npub struct Gen<T> { pub v: T }\n")
-TABLES = {
-    "swift": {"type_mappings": {"Mapped": "SwiftMapped"}, "default_decorators": ["Sendable"], "default_generic_constraints": ["Hashable"]},
-    "kotlin": {"type_mappings": {"Mapped": "KotlinMapped"}},
-    "scala": {"type_mappings": {"Mapped": "ScalaMapped"}},
-    "typescript": {"type_mappings": {"Mapped": "TsMapped"}},
-    "go": {"type_mappings": {"Mapped": "GoMapped"}, "uppercase_acronyms": ["ID"], "no_pointer_slice": True},
-    "python": {"type_mappings": {"Mapped": "PyMapped"}},
+# MC_C20!TableProfiles: the file-only tables written into every configuration file of a cell
+PROFILES = {
+    "basic": {
+        "swift": {"type_mappings": {"Mapped": "SwiftMapped"}, "default_decorators": ["Sendable"], "default_generic_constraints": ["Hashable"]},
+        "kotlin": {"type_mappings": {"Mapped": "KotlinMapped"}},
+        "scala": {"type_mappings": {"Mapped": "ScalaMapped"}},
+        "typescript": {"type_mappings": {"Mapped": "TsMapped"}},
+        "go": {"type_mappings": {"Mapped": "GoMapped"}, "uppercase_acronyms": ["ID"], "no_pointer_slice": True},
+        "python": {"type_mappings": {"Mapped": "PyMapped"}},
+    },
+    # lists with several entries, the same entry in more than one list, two mappings
+    "overlap": {
+        "swift": {"type_mappings": {"Mapped": "SwiftMapped", "Mapped2": "SwiftMapped"}, "default_decorators": ["Sendable", "Hashable"],
+                  "default_generic_constraints": ["Sendable", "Hashable"], "codablevoid_constraints": ["Hashable", "Equatable"]},
+        "kotlin": {"type_mappings": {"Mapped": "KotlinMapped", "Mapped2": "Second"}},
+        "scala": {"type_mappings": {"Mapped": "ScalaMapped", "Mapped2": "Second"}},
+        "typescript": {"type_mappings": {"Mapped": "TsMapped", "Mapped2": "TsMapped"}},
+        "go": {"type_mappings": {"Mapped": "GoMapped", "Mapped2": "Second"}, "uppercase_acronyms": ["URL", "ID"], "no_pointer_slice": False},
+        "python": {"type_mappings": {"Mapped": "PyMapped"}},
+    },
+    # one entry lists where the single entry is also the other list's entry; mapping onto the Rust name of another field's type
+    "same": {
+        "swift": {"type_mappings": {"Mapped2": "Mapped"}, "default_decorators": ["Equatable"], "default_generic_constraints": ["Equatable"],
+                  "codablevoid_constraints": ["Equatable"]},
+        "kotlin": {"type_mappings": {"Mapped2": "Mapped"}},
+        "scala": {"type_mappings": {"Mapped2": "Mapped"}},
+        "typescript": {"type_mappings": {"Mapped2": "Mapped"}},
+        "go": {"type_mappings": {"Mapped2": "Mapped"}, "uppercase_acronyms": ["URL"]},
+        "python": {},
+    },
 }
+TABLES = PROFILES["basic"]
 
 
 def concrete(setting, v):
@@ -49,8 +73,8 @@ def abstract(setting, text):
     return text[4:] if setting.endswith("package") and setting != "go_package" and text.startswith("com.") else text
 
 
-def toml_text(file_vals, with_tables=True):
-    tables = {lang: dict(t) for lang, t in TABLES.items()} if with_tables else {}
+def toml_text(file_vals, with_tables=True, profile="basic"):
+    tables = {lang: dict(t) for lang, t in PROFILES[profile].items() if t} if with_tables else {}
     for s, v in file_vals.items():
         if v:
             sec, key = TOML_KEY[s]
@@ -72,54 +96,43 @@ def toml_text(file_vals, with_tables=True):
     return "\n".join(out)
 
 
-def observe(lang, text):
-    """generated code -> what it shows of the dual settings and of the file-only tables"""
+def observe(lang, text, profile="basic"):
+    """generated code -> what it shows of the dual settings, and of every file-only table of the profile: for a list, the
+    configured entries that the governed place shows (in configured order); for a mapping, the type written for the field"""
     obs, tobs = {}, {}
+    t = PROFILES[profile][lang]
+    x = {"swift": x_swift, "kotlin": x_kt, "scala": x_scala, "go": x_go, "typescript": x_ts}[lang]
+    o = x.extract(text)
+    foo = [d for d in o["defs"] if d["name"].endswith("Foo")][0]
+    fld = {"Mapped": "m", "Mapped2": "m2"}
+    tobs["type_mappings"] = {k: [m["ty"].get("n") for m in foo["members"] if m["key"] == fld[k]][0] for k in t.get("type_mappings", {})}
     if lang == "swift":
-        o = x_swift.extract(text)
-        foo = [d for d in o["defs"] if d["name"].endswith("Foo")][0]
         obs["swift_prefix"] = foo["name"][:-3]
-        tobs["mapped"] = [m["ty"]["n"] for m in foo["members"] if m["key"] == "m"][0]
-        tobs["decorators"] = "Sendable" in foo.get("inherits", [])
         gen = [d for d in o["defs"] if d["name"].endswith("Gen")][0]
-        tobs["constraints"] = "Hashable" in gen.get("generic_constraints", {}).get("T", [])
+        void = o.get("helper_inherits", {}).get("CodableVoid")
+        tobs["default_decorators"] = [d for d in t.get("default_decorators", []) if d in foo.get("inherits", [])]
+        tobs["default_generic_constraints"] = [c for c in t.get("default_generic_constraints", []) if c in gen.get("generic_constraints", {}).get("T", [])]
+        if "codablevoid_constraints" in t:
+            tobs["codablevoid_constraints"] = [c for c in t["codablevoid_constraints"] if void and c in void]
     elif lang == "kotlin":
-        o = x_kt.extract(text)
-        foo = [d for d in o["defs"] if d["name"].endswith("Foo")][0]
         obs["kotlin_prefix"] = foo["name"][:-3]
         obs["java_package"] = abstract("java_package", o["package"])
-        tobs["mapped"] = [m["ty"]["n"] for m in foo["members"] if m["key"] == "m"][0]
     elif lang == "scala":
-        o = x_scala.extract(text)
-        pk = o["package"] or ""
-        obs["scala_package"] = abstract("scala_package", pk)
-        foo = [d for d in o["defs"] if d["name"] == "Foo"][0]
-        tobs["mapped"] = [m["ty"]["n"] for m in foo["members"] if m["key"] == "m"][0]
+        obs["scala_package"] = abstract("scala_package", o["package"] or "")
     elif lang == "go":
-        o = x_go.extract(text)
         obs["go_package"] = o["package"] or ""
-        foo = [d for d in o["defs"] if d["name"] == "Foo"][0]
-        tobs["mapped"] = [m["ty"]["n"] for m in foo["members"] if m["key"] == "m"][0]
-        tobs["acronym"] = any(m["ident"] == "UserID" for m in foo["members"])
-        lst = [m for m in foo["members"] if m["key"] == "list"][0]
-        tobs["no_pointer_slice"] = not lst["pointer"]
-    elif lang == "typescript":
-        o = x_ts.extract(text)
-        foo = [d for d in o["defs"] if d["name"] == "Foo"][0]
-        tobs["mapped"] = [m["ty"]["n"] for m in foo["members"] if m["key"] == "m"][0]
+        idents = [m["ident"] for m in foo["members"]]
+        shows = {"ID": "UserID" in idents, "URL": "HomeURL" in idents}
+        tobs["uppercase_acronyms"] = [a for a in t.get("uppercase_acronyms", []) if shows[a]]
+        if "no_pointer_slice" in t:
+            lst = [m for m in foo["members"] if m["key"] == "list"][0]
+            tobs["no_pointer_slice"] = not lst["pointer"]
     return obs, tobs
 
 
-def texp(lang):
-    t = TABLES[lang]
-    e = {"mapped": t["type_mappings"]["Mapped"]}
-    if lang == "swift":
-        e["decorators"] = True
-        e["constraints"] = True
-    if lang == "go":
-        e["acronym"] = True
-        e["no_pointer_slice"] = True
-    return e
+def texp(lang, profile="basic"):
+    """the file-only tables as written into the configuration file (the requirement is: applied unchanged)"""
+    return {k: v for k, v in PROFILES[profile][lang].items()}
 
 
 def full(d):
@@ -139,7 +152,8 @@ def run_case(work, idx, c):
     by_flag = disc.startswith("flag")
     cfg_path = os.path.join(root, "conf", "custom.toml") if by_flag else os.path.join(root, "typeshare.toml")
     os.makedirs(os.path.dirname(cfg_path), exist_ok=True)
-    open(cfg_path, "w").write(toml_text(c["file"]))
+    profile = c.get("tables", "basic")
+    open(cfg_path, "w").write(toml_text(c["file"], profile=profile))
     if c.get("decoy"):
         # a different typeshare.toml that discovery alone would find; every setting has another value there
         open(os.path.join(root, "elsewhere", "typeshare.toml"), "w").write(toml_text({s: "decoy" + s.replace("_", "") for s in SETTINGS}, with_tables=False))
@@ -160,9 +174,9 @@ def run_case(work, idx, c):
         r = cli.run_cli(args, cwd=cwd, timeout=20)
         if r["exit"] != "ok":
             raise ToolError(f"typeshare failed in a C20 cell ({lang}): {r['stderr'][-300:]}")
-        obs, tobs = observe(lang, open(out).read())
+        obs, tobs = observe(lang, open(out).read(), profile)
         events.append(({"ev": "run", "cli": full(c["cli"]), "file": full(c["file"]), "lang": lang, "obs": full(obs),
-                        "texp": texp(lang), "tobs": tobs}, {"kind": "run", "lang": lang, "disc": disc, "cli": c["cli"], "file": c["file"]}))
+                        "texp": texp(lang, profile), "tobs": tobs}, {"kind": "run", "lang": lang, "disc": disc, "cli": c["cli"], "file": c["file"], "tables": profile}))
     # -g with the same options, into a directory without any ancestor configuration
     gdir = os.path.join(root, "gen")
     os.makedirs(gdir)
@@ -204,7 +218,7 @@ def run(chk):
     cases = res.replays
     chk.exhaustive = thorough
     if not thorough:
-        flag = [c for c in cases if c["disc"] == "flag"]
+        flag = [c for c in cases if c["disc"] == "flag" and c.get("tables", "basic") == "basic"]
         # pairwise-complete slice: keep cells whose (cli-presence, file-presence) bit vectors differ in a Gray-like stride
         keep = flag[::4] + [c for c in flag if sum(1 for s in SETTINGS if c["cli"][s]) in (0, 5) or sum(1 for s in SETTINGS if c["file"][s]) in (0, 5)]
         seen, sl = set(), []
@@ -217,6 +231,7 @@ def run(chk):
             sl += [dict(c, disc=d) for c in flag[7::16]]
         sl += [c for c in cases if c["disc"] == "flag_over_cwd"][5::16]
         sl += [c for c in cases if "<given-empty>" in c["cli"].values()][3::8]
+        sl += [c for c in cases if c.get("tables", "basic") != "basic"][::3]
         cases = sl
     chk.sample({"cell": {k: cases[len(cases) // 2][k] for k in ("cli", "file", "disc", "effective")}})
     work = common.scratch("c20")
@@ -243,7 +258,7 @@ def run(chk):
                         wrong.append(f"{s}/cli={'set' if rec['cli'][s] else 'absent'}/file={'set' if rec['file'][s] else 'absent'}/used={src}")
                 for k, v in rec["texp"].items():
                     if rec["tobs"].get(k) != v:
-                        wrong.append(f"table:{k}")
+                        wrong.append(f"table:{k}" + ("" if m.get("tables", "basic") == "basic" else "/profile=" + m["tables"]))
             elif rec["ev"] == "gen":
                 wrong = [f"{s}/cli={'set' if rec['cli'][s] else 'absent'}/written={'value' if rec['written'][s] == rec['cli'][s] else 'empty' if not rec['written'][s] else 'other'}"
                          for s in SETTINGS if rec["written"][s] != rec["cli"][s]]
